@@ -125,10 +125,16 @@ class NightExec:
             if len(perm) == len(rows):
                 rows = [rows[i] for i in perm]
         shared = None
-        if op.get("reuse_args"):
+        if op.get("reuse_args") or op.get("inplace_feed"):
             if self.shared_args is None:
                 self.shared_args = {}
             shared = self.shared_args
+            if op.get("inplace_feed"):
+                shared["inplace_feed"] = True
+            if not op.get("reuse_args"):
+                # only the feed frame is kept between polls; the other argument objects are rebuilt
+                for k_ in ("preprocessed", "config", "model_parameters"):
+                    shared.pop(k_, None)
         self.bucket.set_time_minutes(op.get("t", 0.0))
         sf = op.get("solver_fault")
         if sf is not None:
